@@ -35,6 +35,11 @@ def run(job):
         return s, 'FAILED: ' + (p.stdout + p.stderr)[-300:]
 
 
+os.environ['VERIF_KEEP_LEAN_COPIES'] = '1'      # concurrent seed checks share private Lean copies: removed once, at the end
 with ThreadPoolExecutor(3) as ex:
     for s, res in ex.map(run, jobs):
         print(s, res, flush=True)
+import shutil
+for d in os.listdir(os.path.join(VERIF, 'replays')):
+    if d.startswith('lean-'):
+        shutil.rmtree(os.path.join(VERIF, 'replays', d), ignore_errors=True)
